@@ -47,6 +47,7 @@ VALUES = [
     ('quoted', lambda: 'a: b'), ('trail', lambda: 'x\n\n\n'),
 ]
 CORE = [0, 1, 2, 4, 6]
+NODE_CORE = [0, 1, 2, 6, 11, 12]
 
 
 def _n_null():
@@ -69,6 +70,10 @@ def _n_map():
     return yaml.MappingNode('tag:yaml.org,2002:map', [(S('k'), yaml.SequenceNode('tag:yaml.org,2002:seq', [S('1', 'int'), S('')])), (S('l'), S('open'))])
 
 
+_LEAF = yaml.ScalarNode('tag:yaml.org,2002:str', 'leaf')
+_SUBSEQ = yaml.SequenceNode('tag:yaml.org,2002:seq', [yaml.ScalarNode('tag:yaml.org,2002:int', '7')])
+
+
 NODES = [
     ('null-empty', _n_null), ('open', lambda: yaml.ScalarNode('tag:yaml.org,2002:str', 'open')),
     ('keep', lambda: yaml.ScalarNode('tag:yaml.org,2002:str', 'a\n\n', style='|')),
@@ -76,12 +81,17 @@ NODES = [
     ('emap', lambda: yaml.MappingNode('tag:yaml.org,2002:map', [])), ('shared', _n_shared), ('rec', _n_rec), ('map', _n_map),
     ('foldkeep', lambda: yaml.ScalarNode('tag:yaml.org,2002:str', 'a b\n\n', style='>')),
     ('local', lambda: yaml.ScalarNode('!local', '')),
+    # node objects that are reused in several documents of one stream (each document must still stand alone)
+    ('leaf-in-seq', lambda: yaml.SequenceNode('tag:yaml.org,2002:seq', [_LEAF, _SUBSEQ])),
+    ('leaf-in-map', lambda: yaml.MappingNode('tag:yaml.org,2002:map', [(yaml.ScalarNode('tag:yaml.org,2002:str', 'k'), _LEAF), (yaml.ScalarNode('tag:yaml.org,2002:str', 'j'), _SUBSEQ)])),
+    ('leaf-root', lambda: _LEAF),
 ]
 
 EV_ROOTS = [
     [E.S('')], [E.S('open')], [E.S('a\n\n', style='|')], [E.S('a b\n\n', style='>')], E.seq([], flow=True), E.mapping([]),
     E.seq([E.seq([[E.S('1')]], anchor='a'), [('ALIAS', 'a')]]), E.seq([[('ALIAS', 'r')]], anchor='r'), [E.S('', style="'")],
     E.mapping([([E.S('k')], [E.S('')])]),
+    [E.S('v', tag='tag:e.com,2000:t', implicit=(False, False))],
 ]
 EV_MARKS = [(False, False), (True, False), (False, True), (True, True)]     # (start explicit, end explicit)
 EV_DIRS = [(None, None), ((1, 1), None), (None, (('!e!', 'tag:e.com,2000:'),))]
@@ -164,11 +174,13 @@ def check_list(T, sub, level, ids, opts, prefix_db, dumpers=('py', 'c')):
                 marks = rec.marks
                 want = [graph.canon(d, ordered=False) for d in docs]
             elif level == 'nodes':
-                docs = [NODES[i][1]() for i in ids]
+                # the same pool index yields the SAME node object within one list (a caller may serialize one node twice)
+                cache = {}
+                docs = [cache.setdefault(i, NODES[i][1]()) for i in ids]
                 rec = Recorder(docs, out)
                 yaml.serialize_all(rec, out, Dumper=FullD, **opts)
                 marks = rec.marks
-                want = node_canon(docs)
+                want = [node_canon([d])[0] for d in docs]      # each document on its own: sharing never crosses a document boundary
             else:
                 evs = [('SS',)]
                 for r, m, d in ids:
@@ -206,7 +218,7 @@ def check_list(T, sub, level, ids, opts, prefix_db, dumpers=('py', 'c')):
                     got = [graph.canon(d, ordered=False) for d in back]
                 elif level == 'nodes':
                     back = list(yaml.compose_all(text, Loader=FullL))
-                    got = node_canon(back)
+                    got = [node_canon([d])[0] for d in back]
                 else:
                     got = E.describe_all(yaml.parse(text, Loader=FullL))
             except Exception as e:
@@ -256,7 +268,8 @@ def plan(tier, seed):
             jobs.append(('values', first, kf, kc, oc, OC))
     for first in range(-1, len(NODES)):
         for oc in range(OC):
-            jobs.append(('nodes', first, kf, kc, oc, OC))
+            # quick: the longer lists over the node core only for two option chunks rotated by the seed
+            jobs.append(('nodes', first, kf, kc if (not q or oc % 12 == seed % 12) else kf, oc, OC))
     for r in range(len(EV_ROOTS)):
         for m in range(len(EV_MARKS)):
             jobs.append(('events', r, m, 2 if q else 3))
@@ -269,7 +282,7 @@ def run_job(job, T):
         _, first, kf, kc, oc, OC = job
         pool = VALUES if kind == 'values' else NODES
         allopts = list(opt_product())
-        ls = [()] if first < 0 else list(lists(len(pool), CORE, kf, kc, first))
+        ls = [()] if first < 0 else list(lists(len(pool), CORE if kind == 'values' else NODE_CORE, kf, kc, first))
         for oi, o in enumerate(allopts):
             if oi % OC != oc:
                 continue
@@ -282,7 +295,7 @@ def run_job(job, T):
         _, r, m, k = job
         first = (r, m)
         rest_pool = [(rr, mm, dd) for rr in range(len(EV_ROOTS)) for mm in range(len(EV_MARKS)) for dd in range(len(EV_DIRS))]
-        core_rest = [(rr, mm, dd) for rr in (0, 1, 2, 6) for mm in (0, 3) for dd in (0, 1)]
+        core_rest = [(rr, mm, dd) for rr in (0, 1, 2, 6, 10) for mm in (0, 3) for dd in (0, 1)]
         for o in EMIT_OPTS:
             db = {}
             for d in range(len(EV_DIRS)):
